@@ -13,5 +13,7 @@ def main(tier):
         try:
             f = extract.get('onsager/crystalStars.py', q); rep.under_contract('onsager/crystalStars.py' + '::' + q, 'onsager/crystalStars.py', f.l0, f.l1)
         except KeyError: pass
+    from contracts import fresh_c
+    fresh_c.run(rep, contracts=fresh_c.VECTORBASIS_CONTRACTS, class_fields=[])     # ownership (level P): Crystal.VectorBasis hands out a new object on every call
     M.annotate_C25(rep)
     return finish(rep, 'exploration', 'Postconditions of VectorStarSet.generate / generateouter / GFexpansion: Gram matrix = 1, each vector star is an equivariant field on one complete star, count = total invariant dimension of the stabilisers (character formula), outer = direct sums, GF expansion = projection of the directly assembled state-space matrix for seeded values.', './check C25 --tier ' + tier)
